@@ -230,6 +230,7 @@ class DiameterEapAnswer(DiameterEap):
         setattr(self, "qos_filter_rule", [])
         setattr(self, "tunneling", [])
         setattr(self, "redirect_host", [])
+        setattr(self, "reply_message", [])
         setattr(self, "proxy_info", [])
 
         assign_attr_from_defs(self, self._avps)
